@@ -47,6 +47,8 @@ Jobs ==
     [] Family = "rec" -> {J(<<"rec", k, e>>, RecProg(k, e), NoBins) : k \in (IF Q THEN {0, 1, 3, 20} ELSE 0..20), e \in 0..1}
     [] Family = "shift" -> {J(<<"shift", n, k, s>>, ShiftProg(n, k, s), NoBins) : n \in 1..3, k \in 0..5, s \in 1..2}
     [] Family = "shifthole" -> {J(<<"shifthole", k, m, sh>>, ShiftHoleProg(k, m, sh), NoBins) : k \in 0..3, m \in Masks(4), sh \in 0..3}
+    [] Family = "shiftloop" -> {J(<<"shiftloop", kd, t[1], t[2], n>>, ShiftLoopProg(kd, t[1], t[2], n), NoBins) :
+                                  kd \in LoopKinds, t \in UNION {{<<k, a>> : a \in k..(k + 3)} : k \in 0..2}, n \in 0..3}
     [] Family = "exit" -> {J(<<"exit", kd, n, at>>, ExitProg(kd, n, at), NoBins) : kd \in {"REPT", "IRP", "WHILE", "MACRO", "MREPT"}, n \in 0..4, at \in 0..3}
     [] Family = "label" -> {J(<<"label", g, n, i>>, LabelProg(g, n, i), NoBins) : g \in BOOLEAN, n \in 1..3, i \in {"NONE", "REPT", "EMPTY", "EMPTYREPT"}}
     [] Family = "scope" -> {J(<<"scope", o, i, n, pre>>, ScopeProg(o, i, n, pre), NoBins) :
